@@ -280,6 +280,13 @@ def replay(pid, path):
 # =============================================================================================
 PROOFS = {}
 SIMS = {}
+SYMS = {}
+
+
+def sym(pid, decls, ops=("get", "with", "set")):
+    """recorded macro output -> spec (all inputs per layout); see gen/symleg.py"""
+    import symleg
+    SYMS[pid] = symleg.sym_leg(pid, pid.lower(), decls, ops=ops)
 
 
 def finish(pid, tier, seed, t0, mc, legs, rule, assumptions, extra=None, level="model_checking"):
@@ -308,6 +315,10 @@ def finish(pid, tier, seed, t0, mc, legs, rule, assumptions, extra=None, level="
         cov.update(extra)
     if pid in PROOFS:
         cov["tlaps"] = PROOFS[pid]
+    if pid in SYMS:
+        cov["symbolic_expansion_validation"] = SYMS[pid]
+        cov["obligations"] = SYMS[pid]["obligations"]
+        cov["discharged"] = SYMS[pid]["decided_ok"]
     if pid in SIMS:
         cov["spec_to_impl_replay"] = SIMS[pid]
         cov["traces_validated_against_impl"] += SIMS[pid]["behaviours"]
@@ -410,6 +421,8 @@ def c01(pid, tier, seed, t0):
     decls = copyd(star) + copyd(model) + copyd(rnd) + (tall_chunks() if tier == "thorough" else [])
     declfile = save_decls("C01", decls)
     legs = [trace_leg(pid, tier, seed, "star+model+rand", decls, declfile, "get,tableget", q(tier, 1, 6), crate="rt-c01")]
+    # symbolically also EVERY (lo, hi) of the bases up to 33 bits (thorough: all 11 T-all bases are in decls already)
+    sym(pid, decls + (tall_chunks(lambda d, f: d["n"] <= 33) if tier == "quick" else []), ops=("get",))
     finish(pid, tier, seed, t0, mc, legs,
            "every readable contiguous field of Q-star (22 bases x boundary widths x boundary positions x type variants) and of seeded "
            "DeclGen declarations read at edge-pattern raws (0, ones, field mask, complement, walking 1/0 around every range edge, "
@@ -426,6 +439,7 @@ def c02(pid, tier, seed, t0):
     declfile = save_decls("C02", decls)
     legs = [trace_leg(pid, tier, seed, "star+model+rand", decls, declfile, "write,table", q(tier, 1, 4), crate="rt-c02")]
     PROOFS["C02"] = tlaps_leg(["Frame", "RoundTrip"])
+    sym(pid, decls + (tall_chunks(lambda d, f: d["n"] <= 33) if tier == "quick" else []), ops=("with", "set"))
     finish(pid, tier, seed, t0, mc, legs,
            "every writable contiguous field written through with_ AND set_ at (raw, value) pairs: raws {0, ones, field mask, complement, "
            "random} x values {0, ones, walking 1/0 at both ends, random}; after each write the result's raw value AND storage integer, "
@@ -446,6 +460,7 @@ def c03(pid, tier, seed, t0):
                 d["fields"] = d["fields"][::2]
     declfile = save_decls("C03", decls)
     legs = [trace_leg(pid, tier, seed, "arr+nc-arrays+rand", decls, declfile, "get,write", q(tier, 1, 3), crate="rt-c03")]
+    sym(pid, decls)
     finish(pid, tier, seed, t0, mc, legs,
            "array fields of element kinds {bool,u1,u3,u8,i8,u16,enum u2,Option<enum u3>} x K in {2,3,max} x stride in {w,w+1,w+3} x lo "
            "in {0,1} on 8 bases, plus seeded DeclGen arrays: every index 0..K-1 read and written (with_/set_), out-of-range indices "
@@ -460,6 +475,7 @@ def c04(pid, tier, seed, t0):
     declfile = save_decls("C04", decls)
     legs = [trace_leg(pid, tier, seed, "nc+rand", decls, declfile, "get,write,table", q(tier, 2, 6), crate="rt-c04")]
     PROOFS["C04"] = tlaps_leg(["Frame", "RoundTrip (Inj(p) is C04's exclusion of duplicate bits)"])
+    sym(pid, decls)
     finish(pid, tier, seed, t0, mc, legs,
            "non-contiguous range lists (bit reversal, byte swap, RISC-V immediates, reversed/shuffled lists, arrays of lists with "
            "explicit stride including interleaving elements, ascending back-to-back lists) plus seeded DeclGen lists of 2..3 disjoint "
@@ -479,6 +495,7 @@ def c05(pid, tier, seed, t0):
         decls += tall_chunks(signed)
     declfile = save_decls("C05", decls)
     legs = [trace_leg(pid, tier, seed, "signed(star,arr,nc,rand)", decls, declfile, "get,write", q(tier, 3, 10), crate="rt-c05")]
+    sym(pid, decls)
     finish(pid, tier, seed, t0, mc, legs,
            "every iN field (N in 8,16,32,64,128) of Q-star/Q-arr/Q-nc and seeded declarations: patterns 0, -1, MIN, MAX, walking bits, "
            "random written over raws {0, ones, mask, complement, random}; bits above the field observed through raw_value() and the "
@@ -520,6 +537,7 @@ def c08(pid, tier, seed, t0):
     decls = copyd(cust)
     declfile = save_decls("C08", decls)
     legs = [trace_leg(pid, tier, seed, "cust", decls, declfile, "get,write", q(tier, 1, 4), crate="rt-c08")]
+    sym(pid, decls)
     finish(pid, tier, seed, t0, mc, legs,
            "enum / Option<enum> fields of widths {1,2,3,7,8,9,15,16,17,31,32,33,63,64} (exhaustive where <= 3 bits) and nested "
            "bitfields of widths {4,8,12,32,64,128} at first/middle/top placement, scalar, array and non-contiguous; every variant "
@@ -565,6 +583,7 @@ def c11(pid, tier, seed, t0):
     for line in known:
         print(line)
     PROOFS["C11"] = tlaps_leg(["UpperBitsStayZero"])
+    sym(pid, decls, ops=("with", "set"))
     mc.append({"config": "verdict events (layouts reaching above bit N-1 on 13 arbitrary-int bases, with controls) validated against Decl!Valid",
                "distinct": vstates, "generated": len(vev), "wall_s": 0})
     finish(pid, tier, seed, t0, mc, legs,
@@ -652,6 +671,9 @@ def c16(pid, tier, seed, t0):
         decls = [d for k, d in enumerate(decls) if k < 45 or k % 3 == 0]
     declfile = save_decls("C16", decls)
     leg = trace_leg(pid, tier, seed, "star+arr+nc+rand", decls, declfile, "get,write", q(tier, 1, 3), profiles=("dev", "release"), crate="rt-c16")
+    # overflow outcomes for ALL inputs: a shift by >= the width or an extract_uN contract violation on any evaluated path of
+    # any recorded accessor body (decided symbolically; profile-independent by construction)
+    sym(pid, decls)
     dg = leg["digests"]
     if dg["dev"] != dg["release"]:
         info = {"property": pid, "kind": "digest", "digests": dg,
